@@ -252,13 +252,15 @@ def run(ctx, replay=None):
     ctx.add_tlc(ress, 'GVCache exhaustive (capacity 2, 3 keys, depth 6)')
     unc = reward_fs.dijkstra.__wrapped__
     n1, mm1 = cachereplay.replay(reward_fs.dijkstra, unc, lambda k: keys[k - 1], behs_c, equal=lambda a, b: a == b, freeze=lambda x: x.tobytes() + bytes(str(x.shape), 'ascii'))
-    for m in mm1[:3]:
+    for m in [x for x in mm1 if x.get('drift')][:3]:
+        ctx.drift(f'cache counters differ from the GVCache model (capacity / policy is not part of the property): {m}')
+    for m in [x for x in mm1 if not x.get('drift')][:3]:
         ctx.violation(f'shortest-path cache (dijkstra): {m["what"]}', {'kind': 'cache', 'detail': m})
     from functools import lru_cache
     small = lru_cache(maxsize=2)(unc)
     n2, mm2 = cachereplay.replay(small, unc, lambda k: keys[k - 1], behs_s[:: (5 if ctx.quick else 1)], equal=lambda a, b: a == b,
                                  freeze=lambda x: x.tobytes() + bytes(str(x.shape), 'ascii'))
-    for m in mm2[:3]:
+    for m in [x for x in mm2 if not x.get('drift')][:3]:
         ctx.violation(f'lru_cache(2)(dijkstra): {m["what"]}', {'kind': 'cache', 'detail': m})
     # the shortest-path reward through the cache: same question, same answer, whatever was asked in between
     rf = build.reward(steps.C('getting_closer_shortest_path', object_type='Exit'))
